@@ -19,6 +19,8 @@ import Lattigo.Model.BootstrapDefaults
   * `scaleconst q0= evalmod= ratio= logscale= k= ci=` → `round(log2 Q0),-log2 qDiv,log2 ScalingFactor,log2 StCScaling,C2SScaling num/den`
   * `scaledown qs= logscale= ratio= level=` → `level,scaleUpBigint,product of rescaled primes` or `err` (`Evaluator.ScaleDown`)
   * `dft_layers enc= logSlots= [logN= repack= bitrev=]` → the fully split factorisation: per matrix `diag:codes;…` (codes: exponent of ζ, 4n = zero), matrices joined by `/`
+  * `literal_default mod1type= field=`, `literal_default_const name=`, `literal_default_doc field=` → documented defaults of the
+    optional literal fields
   * `default_list list=`, `default_literal list= idx=`, `default_source list= idx=`, `default_announced list= idx=` →
     the table of shipped default parameter sets (`Lattigo/Model/BootstrapDefaults.lean`)
   * `mod1_gain da= inv= logs=` → log2 of the gain of `EvaluateAndScaleNew(ct, 2^logs)` over `EvaluateNew(ct)`
@@ -162,6 +164,18 @@ def handle (toks : List String) : String :=
           (fun x y => x.1 < y.1) |>.toList.map (·.2))
       "/".intercalate mats
     | _, _ => badOp
+  | "literal_default" :: rest =>
+    match kv? rest "mod1type", kv? rest "field" with
+    | some t, some f => (literalDefault t f).getD "none"
+    | _, _ => badOp
+  | "literal_default_const" :: rest =>
+    match kv? rest "name" with
+    | some n => (defaultConst n).getD "none"
+    | none => badOp
+  | "literal_default_doc" :: rest =>
+    match kv? rest "field" with
+    | some f => (defaultDoc f).getD "none"
+    | none => badOp
   | "default_list" :: rest =>
     match kv? rest "list" with
     | some l => toString (shippedListLength l)
